@@ -95,12 +95,15 @@ def coins(rng, n=48):
 
 class Fam:
     name = ""
+    update = True
     merge = True
     serde = True
     trim = False
     reset = False
     query_mutates_image = False
-    expect_throw_new = False
+    copy_assign = True
+    self_move_assign = True      # hand-written swap-based move assignment: `a = std::move(a)` is the identity
+    known_triggers = ()          # op shapes that hit an open known finding: generated rarely and last
 
     def new(self, rng, tier, oid):
         raise NotImplementedError
@@ -162,14 +165,26 @@ MODELLED = {"tup": FTup(), "kll": FKll(), "fi": FFi()}
 class FMon(Fam):
     """a monitored-only family: `newf(rng, tier) -> cfg words`, `updf(rng, st) -> arg words`"""
 
-    def __init__(self, name, newf, updf, merge=False, serde=True, trim=False, reset=False, query_mutates=False, universe=(20, 200)):
+    self_move_assign = False     # defaulted / std-member move assignment: self-move leaves an unspecified state
+
+    def __init__(self, name, newf, updf, merge=False, serde=True, trim=False, reset=False, query_mutates=False,
+                 universe=(20, 200), update=True, compat=None, known=(), copy_assign=True):
         self.name, self.newf, self.updf = name, newf, updf
         self.merge, self.serde, self.trim, self.reset = merge, serde, trim, reset
         self.query_mutates_image = query_mutates
         self.universe = universe
+        self.update = update
+        self.compat = compat
+        self.known_triggers = known
+        self.copy_assign = copy_assign
 
     def new(self, rng, tier, oid):
-        return "new %s %d %s" % (self.name, oid, self.newf(rng, tier)), dict(universe=rng.choice(self.universe))
+        cfg = self.newf(rng, tier)
+        return "new %s %d %s" % (self.name, oid, cfg), dict(universe=rng.choice(self.universe),
+                                                             compat=self.compat(cfg) if self.compat else None)
+
+    def mergeable(self, a, b):
+        return a.get("compat") == b.get("compat")
 
     def upd(self, rng, oid, st):
         return "upd %d %s" % (oid, self.updf(rng, st))
@@ -181,25 +196,28 @@ def _u(rng, st):
 
 MONITORED = [
     FMon("theta", lambda r, t: "%d %d %s" % (r.choice([5, 5, 6]), r.randrange(4), r.choice(["3f800000", "3f000000"])), _u, serde=False, trim=True, reset=True),
-    FMon("cth", lambda r, t: "%d %d %d" % (r.choice([0, 1, 5, 40, 100]), r.choice([5, 6]), r.randrange(2)), _u),
+    FMon("cth", lambda r, t: "%d %d %d" % (r.choice([0, 1, 5, 40, 100]), r.choice([5, 6]), r.randrange(2)), _u, update=False),
     FMon("thu", lambda r, t: "%d" % r.choice([5, 6]), lambda r, st: "%d %d" % (r.randrange(500), r.randrange(1, 40)), serde=False, reset=True),
-    FMon("ctup", lambda r, t: "%d %d %d" % (r.choice([0, 1, 5, 40, 100]), r.choice([5, 6]), r.randrange(2)), _u),
+    FMon("ctup", lambda r, t: "%d %d %d" % (r.choice([0, 1, 5, 40, 100]), r.choice([5, 6]), r.randrange(2)), _u, update=False),
     FMon("tupu", lambda r, t: "%d" % r.choice([5, 6]), lambda r, st: "%d %d" % (r.randrange(500), r.randrange(1, 40)), serde=False, reset=True),
     FMon("kllstr", lambda r, t: "%d" % r.choice([8, 9, 12, 16]), _u, merge=True, query_mutates=True),
-    FMon("req", lambda r, t: "%d %d" % (r.choice([4, 6, 8]), r.randrange(2)), _u, merge=True, query_mutates=True),
-    FMon("reqstr", lambda r, t: "%d %d" % (r.choice([4, 6, 8]), r.randrange(2)), _u, merge=True, query_mutates=True),
+    FMon("req", lambda r, t: "%d %d" % (r.choice([4, 6, 8]), r.randrange(2)), _u, merge=True, query_mutates=True, compat=lambda c: c.split()[1]),
+    FMon("reqstr", lambda r, t: "%d %d" % (r.choice([4, 6, 8]), r.randrange(2)), _u, merge=True, query_mutates=True, compat=lambda c: c.split()[1]),
     FMon("quant", lambda r, t: "%d" % r.choice([2, 4, 8, 16]), _u, merge=True, query_mutates=True),
     FMon("quantstr", lambda r, t: "%d" % r.choice([2, 4, 8, 16]), _u, merge=True, query_mutates=True),
     FMon("fistr", lambda r, t: (lambda m: "%d %d" % (m, r.randrange(3, m + 1)))(r.choice([3, 3, 4, 5])), _u, merge=True, universe=(6, 12, 40, 200)),
-    FMon("varopt", lambda r, t: "%d" % r.choice([4, 8, 16]), _u, reset=True),
-    FMon("vou", lambda r, t: "%d" % r.choice([4, 8, 16]), lambda r, st: "%d %d" % (r.randrange(500), r.randrange(1, 30)), reset=True),
+    FMon("varopt", lambda r, t: "%d" % r.choice([4, 8, 16]), _u, reset=True, known=("upd-on-deserialized",)),
+    FMon("vou", lambda r, t: "%d" % r.choice([4, 8, 16]), lambda r, st: "%d %d" % (r.randrange(500), r.randrange(1, 30)), reset=True,
+         copy_assign=False, known=("upd-on-deserialized", "query")),
     FMon("ebpps", lambda r, t: "%d" % r.choice([3, 6, 12]), _u, merge=True, reset=True),
-    FMon("hll", lambda r, t: "%d %d %d" % (r.choice([4, 5, 7, 8]), r.randrange(3), r.randrange(2)), lambda r, st: "%d %d" % (r.randrange(100), r.choice([1, 1, 3, 40, 300])), reset=True),
-    FMon("hllu", lambda r, t: "%d" % r.choice([5, 6, 8]), lambda r, st: "%d %d" % (r.randrange(100), r.choice([1, 5, 40, 300])), serde=False, reset=True),
+    FMon("hll", lambda r, t: "%d %d %d" % (r.choice([4, 5, 7, 8]), r.randrange(3), r.randrange(2)), lambda r, st: "%d %d" % (r.randrange(100), r.choice([1, 1, 3, 40, 300])), reset=True,
+         known=("cassign-self", "cassign-to-moved-from")),
+    FMon("hllu", lambda r, t: "%d" % r.choice([5, 6, 8]), lambda r, st: "%d %d" % (r.randrange(100), r.choice([1, 5, 40, 300])), serde=False, reset=True,
+         known=("cassign-self", "cassign-to-moved-from")),
     FMon("cpc", lambda r, t: "%d" % r.choice([4, 5, 7]), lambda r, st: "%d %d" % (r.randrange(100), r.choice([1, 1, 3, 40, 300])), ),
     FMon("cpcu", lambda r, t: "%d" % r.choice([5, 6, 7]), lambda r, st: "%d %d" % (r.randrange(100), r.choice([1, 5, 40, 300])), serde=False),
     FMon("bloom", lambda r, t: "%d %d" % (r.choice([64, 256, 1000]), r.choice([1, 3, 5])), _u, merge=True, trim=True, reset=True),
-    FMon("cm", lambda r, t: "%d %d" % (r.choice([1, 3, 5]), r.choice([3, 16, 64])), _u, merge=True),
+    FMon("cm", lambda r, t: "%d %d" % (r.choice([1, 3, 5]), r.choice([3, 16, 64])), _u, merge=True, compat=lambda c: c),
     FMon("td", lambda r, t: "%d" % r.choice([10, 20, 50]), _u, merge=True),
     FMon("dens", lambda r, t: "%d %d" % (r.choice([2, 4, 8]), r.choice([1, 2, 3])), _u, merge=True),
 ]
@@ -209,14 +227,25 @@ MONITORED_NAMES = [f.name for f in MONITORED]
 def gen_history(rng, tier, fams, nops):
     """one lifecycle history over objects of the given families (>= 3 live objects most of the time)."""
     h = ["alloc " + rng.choice(["shared", "shared", "distinct"])]
-    live = {}      # id -> dict(fam, usable, st)
+    live = {}      # id -> dict(fam, usable, st, deser)
     nxt = [0]
+    allow_known = rng.random() < 0.25     # a quarter of the histories may END with an op that hits an open known finding
+    deferred = []
+
+    def emit(line, trigger=None, fam=None):
+        """ops that hit an open known finding of the family are postponed to the very end of the history"""
+        if trigger and fam is not None and trigger in fam.known_triggers:
+            if allow_known and not deferred:
+                deferred.append((trigger, fam))
+            return False
+        h.append(line)
+        return True
 
     def new_obj(f):
         oid = nxt[0]; nxt[0] += 1
         line, st = f.new(rng, tier, oid)
         h.append(line)
-        live[oid] = dict(fam=f, usable=True, st=st)
+        live[oid] = dict(fam=f, usable=True, st=st, deser=False)
         return oid
 
     def usable(f=None):
@@ -230,58 +259,70 @@ def gen_history(rng, tier, fams, nops):
         if len(us) < 3 and len(live) < 8:
             new_obj(rng.choice(fams))
             continue
+        if not us:
+            d = rng.choice(list(live))
+            h.append("destroy %d" % d)
+            del live[d]
+            continue
         r = rng.random()
         a = rng.choice(us)
         fa = live[a]["fam"]
         same = [i for i in usable(fa) if i != a]
-        if r < 0.55 or burst > 0:
+        if (r < 0.55 or burst > 0) and fa.update:
             if burst == 0 and rng.random() < 0.15:
                 burst = rng.choice([10, 30, 60])
             burst = max(0, burst - 1)
-            h.append(fa.upd(rng, a, live[a]["st"]))
+            emit(fa.upd(rng, a, live[a]["st"]), "upd-on-deserialized" if live[a]["deser"] else None, fa)
         elif r < 0.61 and len(live) < 9:
             d = nxt[0]; nxt[0] += 1
             h.append("copy %d %d" % (a, d))
-            live[d] = dict(fam=fa, usable=True, st=live[a]["st"])
+            live[d] = dict(fam=fa, usable=True, st=live[a]["st"], deser=live[a]["deser"])
         elif r < 0.66 and len(live) < 9:
             d = nxt[0]; nxt[0] += 1
             h.append("move %d %d" % (a, d))
-            live[d] = dict(fam=fa, usable=True, st=live[a]["st"])
+            live[d] = dict(fam=fa, usable=True, st=live[a]["st"], deser=live[a]["deser"])
             live[a]["usable"] = False
-        elif r < 0.72:
+        elif r < 0.72 and fa.copy_assign:
             # copy assignment: to another object of the family (usable or moved-from), to itself, or a chain a = b = c
             targets = [i for i, o in live.items() if o["fam"] is fa]
             d = rng.choice(targets)
-            h.append("cassign %d %d" % (d, a))
-            live[d]["usable"] = True
-            live[d]["st"] = live[a]["st"]
-            if rng.random() < 0.3:
-                d2 = rng.choice(targets)
-                h.append("cassign %d %d" % (d2, d))
-                live[d2]["usable"] = True
-                live[d2]["st"] = live[a]["st"]
-        elif r < 0.78:
-            targets = [i for i, o in live.items() if o["fam"] is fa]
-            d = rng.choice(targets)
-            h.append("massign %d %d" % (d, a))
-            if d != a:
+            trig = "cassign-self" if d == a else ("cassign-to-moved-from" if not live[d]["usable"] else None)
+            if emit("cassign %d %d" % (d, a), trig, fa):
                 live[d]["usable"] = True
-                live[d]["st"], live[a]["st"] = live[a]["st"], live[d]["st"]
-                live[a]["usable"] = False
+                live[d]["st"] = live[a]["st"]
+                live[d]["deser"] = live[a]["deser"]
+                if rng.random() < 0.3:
+                    d2 = rng.choice(targets)
+                    trig = "cassign-self" if d2 == d else ("cassign-to-moved-from" if not live[d2]["usable"] else None)
+                    if emit("cassign %d %d" % (d2, d), trig, fa):
+                        live[d2]["usable"] = True
+                        live[d2]["st"] = live[a]["st"]
+                        live[d2]["deser"] = live[a]["deser"]
+        elif r < 0.78:
+            targets = [i for i, o in live.items() if o["fam"] is fa and (fa.self_move_assign or i != a)]
+            if targets:
+                d = rng.choice(targets)
+                h.append("massign %d %d" % (d, a))
+                if d != a:
+                    live[d]["usable"] = True
+                    live[d]["st"], live[a]["st"] = live[a]["st"], live[d]["st"]
+                    live[d]["deser"] = live[a]["deser"]
+                    live[a]["usable"] = False
         elif r < 0.85 and fa.merge and same:
             b = rng.choice(same)
-            mv = rng.random() < 0.4
-            h.append("%s %d %d %s" % ("mergemv" if mv else "merge", a, b, coins(rng, 48)))
-            if mv:
-                live[b]["usable"] = False
+            if fa.mergeable(live[a]["st"], live[b]["st"]):
+                mv = rng.random() < 0.4
+                h.append("%s %d %d %s" % ("mergemv" if mv else "merge", a, b, coins(rng, 48)))
+                if mv:
+                    live[b]["usable"] = False
         elif r < 0.89:
-            h.append(fa.query(rng, a))
+            emit(fa.query(rng, a), "query", fa)
         elif r < 0.92:
             h.append("ser %d" % a)
         elif r < 0.95 and fa.serde and len(live) < 9:
             d = nxt[0]; nxt[0] += 1
             h.append("serde %d %d" % (a, d))
-            live[d] = dict(fam=fa, usable=True, st=live[a]["st"])
+            live[d] = dict(fam=fa, usable=True, st=live[a]["st"], deser=True)
         elif r < 0.96 and fa.trim:
             h.append("trim %d" % a)
         elif r < 0.97 and fa.reset:
@@ -293,10 +334,28 @@ def gen_history(rng, tier, fams, nops):
     # moved-from objects are assigned to or destroyed; then everything dies
     for i in list(live):
         if not live[i]["usable"] and rng.random() < 0.5:
-            src = [j for j in usable(live[i]["fam"])]
-            if src:
-                h.append("cassign %d %d" % (i, rng.choice(src)))
+            src = [j for j in usable(live[i]["fam"])] if live[i]["fam"].copy_assign else []
+            if src and emit("cassign %d %d" % (i, rng.choice(src)), "cassign-to-moved-from", live[i]["fam"]):
                 live[i]["usable"] = True
+    if deferred:
+        # an operation that hits an open known finding of the family, built from the final state; it may end the run
+        # (the harness stops at a sanitizer report)
+        trig, fam = deferred[0]
+        us = usable(fam)
+        mf = [i for i, o in live.items() if o["fam"] is fam and not o["usable"]]
+        de = [i for i in us if live[i]["deser"]]
+        line = None
+        if trig == "cassign-self" and us:
+            line = "cassign %d %d" % (us[0], us[0])
+        elif trig == "cassign-to-moved-from" and us and mf:
+            line = "cassign %d %d" % (mf[0], us[0])
+        elif trig == "query" and us:
+            line = fam.query(rng, us[0])
+        elif trig == "upd-on-deserialized" and de:
+            line = fam.upd(rng, de[0], live[de[0]]["st"])
+        if line:
+            h.append(line)
+            return h
     order = list(live)
     rng.shuffle(order)
     for i in order:
@@ -314,6 +373,13 @@ def life_oracle(hist, out, query_mutates=lambda oid: True):
     bad = []
     img = {}          # id -> digest after the previous op
     prev_live = None  # (H live list, V live list, O) before the op
+    fam_of = {}       # object id -> family name
+    for l in hist:
+        w = l.split()
+        if w[0] == "new":
+            fam_of[int(w[2])] = w[1]
+        elif w[0] in ("copy", "move", "serde") and int(w[1]) in fam_of:
+            fam_of[int(w[2])] = fam_of[int(w[1])]
     for i, l in enumerate(hist):
         if i >= len(out):
             break
@@ -321,8 +387,15 @@ def life_oracle(hist, out, query_mutates=lambda oid: True):
         w = l.split()
         if o.startswith("FATAL"):
             ws = o.split()
-            kind = [t.split("=")[1] for t in ws if t.startswith("kind=")]
-            bad.append(("fatal:" + (ws[1] if len(ws) > 1 else "?") + (":" + kind[0] if kind else ""), o[:200], i))
+            if len(ws) > 1 and ws[1] == "sanitizer-report":
+                # FATAL sanitizer-report <op> fam=<f> [self] [to-moved-from] [on-deserialized]
+                fam = [t.split("=")[1] for t in ws if t.startswith("fam=")]
+                extra = [t for t in ws[3:] if not t.startswith("fam=")]
+                bad.append((":".join(["sanitizer", fam[0] if fam else "?", ws[2] if len(ws) > 2 else "?"] + extra), o[:200], i))
+            else:
+                kind = [t.split("=")[1] for t in ws if t.startswith("kind=")]
+                fam = fam_of.get(int(w[1])) if len(w) > 1 and w[1].isdigit() else (w[1] if w[0] == "new" else None)
+                bad.append(("fatal:" + (ws[1] if len(ws) > 1 else "?") + (":" + kind[0] if kind else "") + (":" + fam if fam and not kind else ""), o[:200], i))
             break
         if w[0] == "end":
             m = dict(t.split("=") for t in o.split()[1:] if "=" in t)
@@ -336,6 +409,9 @@ def life_oracle(hist, out, query_mutates=lambda oid: True):
         for p in o.split(" | ")[1:]:
             if p.startswith("E "):
                 for t in sorted(set(p[2:].strip().split(","))):
+                    if t == "default-allocator":
+                        fam = fam_of.get(int(w[1])) if len(w) > 1 and w[1].isdigit() else (w[1] if w[0] == "new" else "?")
+                        t = "default-allocator:%s:%s" % (fam, w[0])
                     bad.append((t, "%s: %s" % (l, t), i))
         if o.startswith("bad"):
             bad.append(("harness-rejected-op", l + " -> " + o[:80], i))
@@ -349,7 +425,11 @@ def life_oracle(hist, out, query_mutates=lambda oid: True):
         if d["status"] == "throw":
             expect = l.startswith("serde") and len(w) > 3 or w[0] == "new" and "bad" in w
             if not expect:
-                bad.append(("unexpected-throw:" + w[0], l, i))
+                desc = [p for p in o.split(" | ") if p.startswith("T ")]
+                dw = desc[0].split()[1:] if desc else [w[0]]
+                fam = [t.split("=")[1] for t in dw if t.startswith("fam=")]
+                extra = [t for t in dw[1:] if not t.startswith("fam=")]
+                bad.append((":".join(["unexpected-throw", fam[0] if fam else "?", dw[0]] + extra), l, i))
             # a throwing operation must not leak and must not leave stray objects
             if prev_live is not None and cur_live != prev_live and w[0] in ("new", "serde", "copy"):
                 bad.append(("leak-on-throw:" + w[0], "%s: before %s after %s" % (l, prev_live, cur_live), i))
